@@ -36,4 +36,18 @@ PROPS = {
         "level_text": "Machine-checked Lean 4 theorems over all Int nanosecond / microsecond values (from_to_micros over the whole i64 range, toMicros_spec/toward_epoch/total, store_reload, truncate_agrees, truncate_idem, truncate_spec, pct_add/sub_components and their panic conditions, completeWith_spec, destructure_spec, after_or_eq_any_iff) about the executable model Omaha.Time, tied to time.rs / time/complex.rs / storage.rs by a differential run on every invocation.",
         "level_note": "Trusted: Lean kernel; the hand-written model of SystemTime/Duration arithmetic; harness and diff. Two genuine defects found by this check were repaired upstream (KNOWN_FINDINGS.txt: fixed 153a050, dbc6e81).",
     },
+    "C01": {
+        "lean_modules": ["Omaha.Props.C01"],
+        "streams": [{"name": "cup", "file": "cup", "args": ["cup"]}],
+        "rule": "per exchange: random bodies (empty, JSON, around SHA-256 block boundaries, up to 4 KiB, non-UTF-8), nonces, key sets (latest + 0..3 historical from 4 test keys, duplicate ids), "
+                "authentic ETag in the three encodings signed by the harness over a digest it composes itself, then 24 (quick) / 40 (thorough) mutations drawn from 22 kinds "
+                "(bit flips of signature/hash/response/request/nonce, other/unregistered key id, swapped ETag of another genuine exchange, truncation, re-sign with another key, digest recomposed 8 wrong ways, "
+                "hash prefix/extension, 5 non-canonical DER re-encodings, high-S twin, r/s = 0 or n, upper-case hex, random ASCII ETags, non-ASCII header bytes, absent header, bad hex, extra colon, duplicate id last-wins, swapped parts) "
+                "plus a pure DER stream; non-trivial = every case (all have a non-default body or a mutation); distinct = (mutation kind, ETag encoding) / (DER r-length, s-length) class",
+        "trusted_extra": ["modelled, not verified: sha2 (Lean SHA-256 oracle, validated on FIPS vectors), p256/ecdsa verification (Lean P-256 oracle, validated on RFC 6979 A.2.5), ecdsa::der strict DER rules, hex crate, http::HeaderValue::to_str",
+                          "cryptographic assumptions (ECDSA unforgeability, SHA-256 collision resistance) appear only as explicit hypotheses of tamper_rejected / for_no_other, never as axioms"],
+        "assumptions": ["the ECDSA twin (r, n-s) of a genuine signature is a valid signature (accepted by p256 and by the model alike)"],
+        "level_text": "Machine-checked Lean 4 theorems, for every instantiation of hash and signature predicate and all byte strings: verify_iff (acceptance <-> the eight conjuncts of the property, signature returned unchanged), verify_total, the error kind for each first failing condition, txPreimage_injective and for_no_other (the signed message determines request hash, response hash, key id, nonce), tamper_rejected / tamper_req_hash_rejected / unknown_key_rejected, lookupKey_none_iff, stripEtag_infix/ascii/quoted/weak/plain; the model is run with its own SHA-256 and P-256 against the real StandardCupv2Handler on every invocation.",
+        "level_note": "Trusted: Lean kernel; the hand-written model of cup_ecdsa.rs and of the third-party crates it calls (listed in trusted_base); harness and diff. Unforgeability and collision resistance are hypotheses.",
+    },
 }
